@@ -171,37 +171,54 @@ func TestVerif_C01(t *testing.T) {
 			"F(h=aaaaaaaa)", "F(b=0xf8f9fa)", "F(big=z*100)",
 			"S(:method=GET)", "S(cookie=v)", "S(k=v)", "S(accept-charset=u)", "S(:status=5)",
 			"End",
-			"Peer(0)", "Peer(33)", "Peer(70)", "Peer(4096)", "Peer(8192)",
-			"Limit(0)", "Limit(70)", "Limit(4096)", "Limit(16384)")
-		thoroughOps := append(append([]c01Op(nil), quickOps...), c01Ops("F(=e)", "S(k=w)", "S(h=aaaaaaaa)", "Peer(30)", "Peer(31)")...)
+			"Peer(0)", "Peer(33)", "Peer(70)", "Peer(4096)",
+			"Limit(0)", "Limit(70)", "Limit(4096)")
+		thoroughOps := append(append([]c01Op(nil), quickOps...), c01Ops("F(=e)", "S(k=w)", "S(h=aaaaaaaa)", "Peer(30)", "Peer(31)", "Peer(8192)", "Limit(16384)")...)
+		// thorough only: a smaller alphabet (one op per table/size situation) taken two steps deeper
+		coreOps := c01Ops("F(k=v)", "F(k=w)", "F(=)", "F(cookie=v)", "F(big=z*100)", "S(k=v)", "End",
+			"Peer(0)", "Peer(33)", "Peer(70)", "Peer(4096)", "Limit(70)", "Limit(4096)")
 		ops := vx.Pick(c, quickOps, thoroughOps)
 		seeds := [][]c01Op{
 			c01Ops("F(k=v)", "End"),
 			c01Ops("F(k=v)", "F(k=w)", "End"),
 			c01Ops("F(k=v)", "F(k=w)", "F(b=0xf8f9fa)", "End"),
 		}
-		var labels []string
-		for _, o := range ops {
-			labels = append(labels, o.String())
+		lab := func(ops []c01Op) string {
+			var labels []string
+			for _, o := range ops {
+				labels = append(labels, o.String())
+			}
+			return strings.Join(labels, " ")
 		}
-		d0, d1 := vx.Pick(c, 4, 5), vx.Pick(c, 4, 5)
-		c.Rule(fmt.Sprintf("breadth-first search over every sequence of operations {%s} on one real Encoder + one real Decoder (NewDecoder(4096)) + an RFC 7541 reference decoder: depth %d from the initial state and depth %d from 3 seed states whose tables hold 1, 2, 3 small entries; states deduplicated on (encoder table/maxSize/minSize/tableSizeUpdate/maxSizeLimit, decoder table/maxSize/allowedMax, reference table, open block fields+bytes, size-change model). F/S write a (sensitive) field into the open block; End feeds the block to Decoder.Write in one piece + Close and compares emitted fields, errors, all three tables and the table index maps; Peer(v)=dec.SetAllowedMaxDynamicTableSize(v)+enc.SetMaxDynamicTableSize(v), Limit(w)=enc.SetMaxDynamicTableSizeLimit(w), both only between blocks. non-trivial = an applied transition whose comparisons were made (a branch is pruned after a divergence)", strings.Join(labels, " "), d0, d1))
+		if c.Quick() {
+			seeds = seeds[:2]
+		}
+		d0, d1, dCore := vx.Pick(c, 4, 5), 4, 6
+		c.Rule(fmt.Sprintf("breadth-first search over every sequence of operations {%s} on one real Encoder + one real Decoder (NewDecoder(4096)) + an RFC 7541 reference decoder: part seq-seeded = depth %d from seed states whose tables hold 1, 2(, 3 in the thorough tier) small entries (seeds %v), part seq = depth %d from the initial state; states deduplicated on (encoder table/maxSize/minSize/tableSizeUpdate/maxSizeLimit, decoder table/maxSize/allowedMax, reference table, open block fields+bytes, size-change model). F/S write a (sensitive) field into the open block; End feeds the block to Decoder.Write in one piece + Close and compares emitted fields, errors, all three tables and the table index maps; Peer(v)=dec.SetAllowedMaxDynamicTableSize(v)+enc.SetMaxDynamicTableSize(v), Limit(w)=enc.SetMaxDynamicTableSizeLimit(w), both only between blocks. non-trivial = an applied transition whose comparisons were made (a branch is pruned after a divergence); distinct = distinct (representation kinds, size updates, block bytes) of accepted blocks", lab(ops), d1, seeds, d0))
+		if !c.Quick() {
+			c.Rule(fmt.Sprintf("thorough only, part seq-core: the same search to depth %d from the first two seeds over the smaller alphabet {%s}", dCore, lab(coreOps)))
+		}
 		c.Assume("Table-size changes happen only between header blocks; empty header blocks are not generated; the block is fed to Decoder.Write in one piece (splits are C03).")
 		c.Assume("Indexed references >= 127 (66+ dynamic entries), strings >= 127 bytes and table sizes other than {0,30,31,33,70,4096,8192} are outside the bound. Decoder string-length limit and SetEmitEnabled(false) are not used.")
 		c.Assume("Encoder and decoder entry lists are required to be equal only while no encoder-local SetMaxDynamicTableSizeLimit call has shrunk the encoder table in the history; after such a call the encoder table must still be the newest part of the decoder table (the encoder does not signal that low-water mark; the round trip is unaffected).")
 		c.Assume("The Huffman code table data (huffmanCodes/huffmanCodeLen) is shared with the reference decoder; C04 checks it.")
 
 		spec := vx.SeqSpec[*c01State, c01Op]{
-			Part:    "seq",
+			Part:    "seq-seeded",
 			New:     func() *c01State { return c01New("C01", false) },
 			Ops:     ops,
 			Enabled: c01Enabled,
 			Apply:   c01Apply,
 			Canon:   c01Canon,
-			Depth:   d0,
+			Depth:   d1,
+			Seeds:   seeds,
 		}
 		vx.Seq(c, spec)
-		spec.Part, spec.Seeds, spec.Depth = "seq-seeded", seeds, d1
+		if !c.Quick() {
+			spec.Part, spec.Ops, spec.Seeds, spec.Depth = "seq-core", coreOps, seeds[:2], dCore
+			vx.Seq(c, spec)
+		}
+		spec.Part, spec.Ops, spec.Seeds, spec.Depth = "seq", ops, nil, d0
 		vx.Seq(c, spec)
 	})
 }
